@@ -26,7 +26,7 @@ for d in sorted(glob.glob(f"{ROOT}/seeded/*{pat}*/")):
         for tier in ["quick", "thorough"]:
             rc, out = run(f"{ROOT}/check {cid} {tier}", {"VERIF_NO_EVIDENCE": "1", "VERIF_REPLAY_DIR": f"{ROOT}/sim/target/seed-replays"})
             if rc == 1:
-                m = re.search(r"site=(\S+) witness=(\S*)", out)
+                m = re.search(r"^VIOLATION[^\n]*\n\s+site=(\S+) witness=(\S*)", out, re.M)
                 res.append({"check": cid, "tier": tier, "site": m.group(1) if m else "?", "witness": m.group(2) if m else ""})
                 break
             if rc != 0:
